@@ -23,7 +23,8 @@ REQUIRED_FLAGS = ["construction_history", "unfused_velocity", "unfused_track", "
                   "piece_at_high_resolution_accepted", "stream_handed_over_as_generator"]
 
 FLAGS = list(itertools.product((True, False), repeat=4))   # running, fuse_track, fuse_value, fuse_velocity
-VALUE_SETS = [None, [6, 12, 36], [12], [12, 6, 36, 12, 6]]            # the last one names values twice
+VALUE_SETS = [None, [6, 12, 36], [12], [12, 6, 36, 12, 6],            # the fourth names values twice
+              [12, 96, 288, 384]]                                     # values longer than the longest bar (pedal points)
 STEP_SETS = [None, [12, 24], [6, 12, 24], [12, 24, 12, 6]]
 TSR = [(2, 16), (3, 4)]
 
@@ -72,6 +73,8 @@ def repeated_entries(tier):
         yield dict(fl=fl, vb=2, nt=1, pr=(60, 61), nv=3, st=0, tsr=0)
         yield dict(fl=fl, vb=2, nt=2, pr=(60, 61), nv=0, st=3, tsr=0)
         yield dict(fl=fl, vb=1, nt=1, pr=(60, 61), nv="helpers", st=0, tsr=0)
+        yield dict(fl=fl, vb=1, nt=2, pr=(60, 61), nv=4, st=0, tsr=0)
+        yield dict(fl=fl, vb=2, nt=1, pr=(60, 61), nv=4, st=0, tsr=1)
 
 
 def resolutions(tier):
@@ -146,6 +149,10 @@ def pool(cfg, t):
         ns = [(3 * q * b + (q // 2 if b % 2 else 0), vals[b % len(vals)] if vals[b % len(vals)] <= 2 * q else q, lo + b % 2, 0, 64) for b in range(6)]
         out.append(("piece_at_resolution", tracks(lib.seq_abs(ns, [("ts", 0, 3, 4)], 18 * q), [lib.seq_abs([(q, vals[-1], hi, 0, 9)], [], None)])))
     out.append(("one_note", tracks(lib.seq_abs([(0, vm, lo, 0, 64)]))))
+    # signatures stated explicitly although they are the default (4/4 = 8 eighths), 2/2, 8/8, and the range limits
+    for nm, (n_, d_) in (("explicit_four_four", (4, 4)), ("explicit_eight_eight", (8, 8)), ("two_two", (2, 2)), ("two_eight", (2, 8)),
+                         ("sixteen_eight", (16, 8)), ("one_four", (1, 4))):
+        out.append((nm, tracks(lib.seq_abs([(0, vm, lo, 0, 64)], [("ts", 0, n_, d_)], 96 * n_ // d_))))
     out.append(("loud_and_soft", tracks(lib.seq_abs([(0, vm, lo, 0, 1), (24, vm, hi, 0, 127), (48, v1, lo, 0, 100)]))))
     out.append(("rest_crossing_bar", tracks(lib.seq_abs([(96 + 24, vm, hi, 0, 33)]))))
     out.append(("three_four", tracks(lib.seq_abs([(48, vm, lo, 0, 77)], [("ts", 0, 3, 4)]))))
